@@ -33,7 +33,7 @@ from pyvc.symexec import Engine, Obligation, Outcome  # noqa: E402
 from pyvc.values import (TAny, TBool, TInt, TNone, TNStr, TOpt, TRec, TSeq, TTup, Unsupported, V, VAny, VBool,  # noqa: E402
                          VInt, VNone, VNStr, VOpt, VRec, VSeq, VTup, parse_type)
 
-TIMEOUT_MS = int(os.environ.get("PYVC_TIMEOUT_MS", "10000"))
+TIMEOUT_MS = int(os.environ.get("PYVC_TIMEOUT_MS", "60000"))
 LEN_CAP = 12
 
 
@@ -126,6 +126,26 @@ def run_external(smt2: str, timeout_s: int = 10) -> Tuple[str, str]:
         os.unlink(path)
 
 
+def bounded_sat(s: z3.Solver, eng: Engine):
+    """satisfiability search helped by small size bounds (sat answers are real models)"""
+    sizes: List[Any] = []
+    ints: List[Any] = []
+    for v in eng.inputs.values():
+        size_terms(v, eng, sizes, ints)
+    for bound in (2, 3):
+        s.push()
+        for t in sizes:
+            s.add(t <= bound)
+        for t in ints:
+            s.add(t >= -bound - 1, t <= bound + 1)
+        s.set("timeout", 5000)
+        r = s.check()
+        s.pop()
+        if r == z3.sat:
+            return r
+    return z3.unknown
+
+
 def solve_obligation(o: Obligation, eng: Engine) -> Dict[str, Any]:
     t0 = time.time()
     res: Dict[str, Any] = dict(name=o.name, kind=o.kind, lineno=o.lineno, detail=o.detail)
@@ -143,6 +163,8 @@ def solve_obligation(o: Obligation, eng: Engine) -> Dict[str, Any]:
     r = s.check()
     backend = "z3-5.1.0"
     if o.kind == "cover":
+        if r == z3.unknown:
+            r = bounded_sat(s, eng)
         res.update(verdict={"sat": "reachable", "unsat": "dead", "unknown": "cover-unknown"}[str(r)],
                    backend=backend, time_s=time.time() - t0)
         return res
@@ -397,6 +419,8 @@ def verify_contract(job: Tuple[str, int]) -> Dict[str, Any]:
         s.add(*eng.axioms)
         s.add(*eng.requires_pc)
         r = s.check()
+        if r == z3.unknown:
+            r = bounded_sat(s, eng)
         out["obligations"].append(dict(name="cover-requires", kind="cover", lineno=lineno, detail="requires is satisfiable",
                                        verdict={"sat": "reachable", "unsat": "dead", "unknown": "cover-unknown"}[str(r)],
                                        backend="z3-5.1.0", time_s=0.0))
@@ -475,6 +499,8 @@ def verify_lemma(job: Tuple[str, int]) -> Dict[str, Any]:
         s.add(*pc)
         s.add(hyp)
         r = s.check()
+        if r == z3.unknown:
+            r = bounded_sat(s, eng)
         out["obligations"].append(dict(name="cover-hyps", kind="cover", lineno=0, detail="lemma hypotheses satisfiable",
                                        verdict={"sat": "reachable", "unsat": "dead", "unknown": "cover-unknown"}[str(r)],
                                        backend="z3-5.1.0", time_s=0.0))
